@@ -66,6 +66,18 @@ pub fn frame(j: &J) -> Frame {
     }
 }
 
+/// the frame clause, through frame() or through the method the case names ("m": frame_start | frame_between)
+fn set_frame(w: &mut WindowStatement, f: &J) {
+    let ty = if f["type"] == "Range" { FrameType::Range } else { FrameType::Rows };
+    let end = f.get("end").filter(|x| !x.is_null()).map(frame);
+    match (f.get("m").and_then(|m| m.as_str()), end) {
+        (None, end) => { w.frame(ty, frame(&f["start"]), end); }
+        (Some("frame_start"), None) => { w.frame_start(ty, frame(&f["start"])); }
+        (Some("frame_between"), Some(end)) => { w.frame_between(ty, frame(&f["start"]), end); }
+        (Some(m), _) => panic!("case error: frame method {m} does not fit {f}"),
+    }
+}
+
 pub fn window(j: &J) -> WindowStatement {
     let mut w = WindowStatement::new();
     if let Some(ps) = j.get("partition").and_then(|x| x.as_array()) {
@@ -83,9 +95,7 @@ pub fn window(j: &J) -> WindowStatement {
     }
     if let Some(f) = j.get("frame") {
         if !f.is_null() {
-            let ty = if f["type"] == "Range" { FrameType::Range } else { FrameType::Rows };
-            let end = f.get("end").filter(|x| !x.is_null()).map(frame);
-            w.frame(ty, frame(&f["start"]), end);
+            set_frame(&mut w, f);
         }
     }
     w
@@ -103,9 +113,7 @@ pub fn apply_window(w: &mut WindowStatement, c: &J) {
         }
         "frame" => {
             let f = &c["f"];
-            let ty = if f["type"] == "Range" { FrameType::Range } else { FrameType::Rows };
-            let end = f.get("end").filter(|x| !x.is_null()).map(frame);
-            w.frame(ty, frame(&f["start"]), end);
+            set_frame(w, f);
         }
         "clear_order_by" => { w.clear_order_by(); }
         other => panic!("unknown window op {other}"),
@@ -118,6 +126,11 @@ pub fn with_clause(j: &J) -> WithClause {
         w.recursive(true);
     }
     for c in j["ctes"].as_array().unwrap() {
+        if c["from_select"].as_bool().unwrap_or(false) {
+            // name and column list derived from the SELECT itself
+            w.cte(CommonTableExpression::from_select(select(&c["q"])));
+            continue;
+        }
         let mut cte = CommonTableExpression::new();
         cte.table_name(a(&st(c, "name")));
         if let Some(cols) = c.get("cols").and_then(|x| x.as_array()) {
@@ -271,7 +284,15 @@ pub fn apply_select(s: &mut SelectStatement, c: &J) {
         "distinct_on" => { s.distinct_on(c["cols"].as_array().unwrap().iter().map(col_ref).collect::<Vec<_>>()); }
         "from" => { s.from(table_ref(&c["t"])); }
         "from_as" => { s.from_as(table_ref(&c["t"]), a(&st(c, "a"))); }
-        "from_subquery" => { s.from_subquery(select(&c["q"]), a(&st(c, "a"))); }
+        "from_subquery" => {
+            // "take": the sub-select is handed over with take() from a builder that is used again afterwards
+            if c["take"].as_bool().unwrap_or(false) {
+                let mut b = select(&c["q"]);
+                s.from_subquery(b.take(), a(&st(c, "a")));
+            } else {
+                s.from_subquery(select(&c["q"]), a(&st(c, "a")));
+            }
+        }
         "from_values" => {
             let rows: Vec<ValueTuple> = c["rows"].as_array().unwrap().iter()
                 .map(|r| value_tuple(r.as_array().unwrap().iter().map(to_value).collect())).collect();
@@ -354,6 +375,8 @@ pub fn select(j: &J) -> SelectStatement {
     for c in j["calls"].as_array().unwrap() {
         apply_select(&mut s, c);
     }
+    // "take": the finished statement is handed over with take() (the `Query::select()....take()` idiom) instead of by value
+    if j["take"].as_bool().unwrap_or(false) { return s.take(); }
     s
 }
 
@@ -366,8 +389,13 @@ pub fn on_conflict(j: &J) -> OnConflict {
     if let Some(es) = j.get("exprs") {
         oc.exprs(exprs(es));
     }
+    // the predicate setters have three spellings each; "tw_m" / "aw_m" pick one (the case says which)
     if let Some(w) = j.get("target_where").filter(|x| !x.is_null()) {
-        oc.target_cond_where(cond(w));
+        match j.get("tw_m").and_then(|m| m.as_str()) {
+            Some("and_where") => { oc.target_and_where(expr(w)); }
+            Some("and_where_option") => { oc.target_and_where_option(Some(expr(w))); }
+            _ => { oc.target_cond_where(cond(w)); }
+        }
     }
     match &j["action"] {
         J::String(s) if s == "nothing" => { oc.do_nothing(); }
@@ -388,7 +416,11 @@ pub fn on_conflict(j: &J) -> OnConflict {
         _ => {}
     }
     if let Some(w) = j.get("action_where").filter(|x| !x.is_null()) {
-        oc.action_cond_where(cond(w));
+        match j.get("aw_m").and_then(|m| m.as_str()) {
+            Some("and_where") => { oc.action_and_where(expr(w)); }
+            Some("and_where_option") => { oc.action_and_where_option(Some(expr(w))); }
+            _ => { oc.action_cond_where(cond(w)); }
+        }
     }
     oc
 }
@@ -406,7 +438,16 @@ pub fn apply_insert(s: &mut InsertStatement, c: &J) -> J {
         "into_table" => { s.into_table(table_ref(&c["t"])); }
         "columns" => { s.columns(c["cols"].as_array().unwrap().iter().map(|x| a(x.as_str().unwrap())).collect::<Vec<_>>()); }
         "values" => {
-            return match s.values(exprs(&c["row"])) {
+            // "it": the shape of the iterator the row is passed as; the row it yields is always c["row"]
+            let r = match c.get("it").and_then(|x| x.as_str()) {
+                // size_hint upper bound exceeds the number of items yielded
+                Some("filter") => s.values(exprs(&c["row"]).into_iter().map(Some).chain([None, None]).filter_map(|x| x)),
+                // no size_hint at all
+                Some("lazy") => { let mut it = exprs(&c["row"]).into_iter(); s.values(std::iter::from_fn(move || it.next())) }
+                Some(o) => panic!("case error: unknown iterator shape {o}"),
+                None => s.values(exprs(&c["row"])),
+            };
+            return match r {
                 Ok(_) => json!({"ok": true}),
                 Err(e) => match e {
                     error::Error::ColValNumMismatch { col_len, val_len } => json!({"ok": false, "col_len": col_len, "val_len": val_len, "msg": e.to_string()}),
@@ -415,7 +456,14 @@ pub fn apply_insert(s: &mut InsertStatement, c: &J) -> J {
                 },
             };
         }
-        "values_panic" => { s.values_panic(exprs(&c["row"])); }
+        "values_panic" => {
+            match c.get("it").and_then(|x| x.as_str()) {
+                Some("filter") => { s.values_panic(exprs(&c["row"]).into_iter().map(Some).chain([None, None]).filter_map(|x| x)); }
+                Some("lazy") => { let mut it = exprs(&c["row"]).into_iter(); s.values_panic(std::iter::from_fn(move || it.next())); }
+                Some(o) => panic!("case error: unknown iterator shape {o}"),
+                None => { s.values_panic(exprs(&c["row"])); }
+            }
+        }
         "values_from_panic" => {
             let rows: Vec<Vec<SimpleExpr>> = c["rows"].as_array().unwrap().iter().map(exprs).collect();
             s.values_from_panic(rows);
